@@ -133,3 +133,83 @@ def replay(inp: Any) -> Case:
 
 def known_match(finding: Any, case: Case) -> bool:
     return False
+
+
+# ---------------------------------------------------------------- Markdown / standalone page scaling (oracle only)
+
+MD_TEMPLATE = """# {title} for {n}
+
+Feeds {{{n}}} people; use a {{2 1/2}} litre pan and {{0.75}} cups of stock per {{3}} guests.
+
+    {q1}g flour
+    {q2} eggs, beaten
+    dough := knead(flour, eggs, {{1/2}} tsp salt)
+    bake(dough)
+"""
+
+
+def _scaled_values(html_text: str) -> List[str]:
+    import re as _re
+    return _re.findall(r'<span class="[^"]*rg-scaled-value[^"]*"[^>]*>(.*?)</span>', html_text, flags=_re.S)
+
+
+def mdscale_case(seed: int) -> Case:
+    """(1) render() twice on the SAME compiled document at different factors must each equal a fresh
+    compile+render; (2) the standalone page for `servings=M` of a recipe "for N" shows exactly render(M/N)."""
+    import tempfile
+    import pathlib
+    from recipe_grid.markdown import compile_markdown
+    from recipe_grid.static_site.standalone_page import generate_standalone_page
+    rng = random.Random(seed * 92821 + 3)
+    n = rng.choice([1, 2, 3, 4, 5, 6, 7, 8, 12, 17, 19, 23, 24, 30, 36])
+    text = MD_TEMPLATE.format(title=rng.choice(["Bread", "Soup", "Pie"]), n=n, q1=rng.choice([100, 250, 500, 750]),
+                              q2=rng.choice([1, 2, 3, 5]))
+    k1 = rng.choice(FACTORS)
+    k2 = rng.choice([f for f in FACTORS if f != k1])
+    viol = None
+    doc = compile_markdown(text)
+    seq = [k1, k2, 1, k1]
+    for k in seq:
+        got = doc.render(k)
+        fresh = compile_markdown(text).render(k)
+        if _scaled_values(got) != _scaled_values(fresh) or got != fresh:
+            viol = f"render({k}) after earlier renders {seq} differs from a fresh compile+render({k})"
+            break
+    m = rng.choice([1, 2, 3, 5, 7, 9, 10, 11, 13, 20])
+    detail = {"n": n, "m": m, "k1": str(k1), "k2": str(k2)}
+    if viol is None:
+        d = tempfile.mkdtemp(prefix="rgv_c03_")
+        try:
+            f = pathlib.Path(d) / "r.md"
+            f.write_text(text)
+            page = generate_standalone_page(f, servings=m, embed_local_links=False)
+            want = compile_markdown(text).render(Fraction(m, n))
+            if _scaled_values(want) != [v for v in _scaled_values(page)][: len(_scaled_values(want))] \
+                    and not all(v in page for v in _scaled_values(want)):
+                viol = (f"standalone page for {m} servings of a recipe for {n} does not show the document scaled by "
+                        f"exactly {Fraction(m, n)}")
+        finally:
+            import shutil
+            shutil.rmtree(d, ignore_errors=True)
+    return Case(input={"mdscale": seed}, coq_in="tt", coq_out="tt", impl=detail, violation=viol, nontrivial=True,
+                tags=["mdscale", f"native={n}"])
+
+
+_suites_commute = suites
+
+
+def suites(tier: str, seed: int) -> List[Suite]:   # noqa: F811  (extends the commute suite with the Markdown stream)
+    out = _suites_commute(tier, seed)
+    md = Suite(name="mdscale", imports=[], in_ty="unit", out_ty="unit", check="(fun _ _ => true)", shard=2000)
+    if tier != "replay":
+        md.cases = [mdscale_case(seed * 1000 + i) for i in range(40 if tier == "quick" else 400)]
+    return out + [md]
+
+
+_replay_commute = replay
+
+
+def replay(inp: Any) -> Case:   # noqa: F811
+    if isinstance(inp, dict) and "mdscale" in inp:
+        return mdscale_case(inp["mdscale"])
+    return _replay_commute(inp)
